@@ -128,9 +128,11 @@ def screen_steps(stdout):
 
 def run_md(engine, mols, params, steps, dt=0.5, temp=300.0, seed=0, remove_com=None, reuse_P=True,
            out=None, workdir=None, velocities=None, k=3, damp=10.0, xl_extra=None, active_state=None,
-           pad_extra=0, hook=None, keep=False, nmol_out=None):  # fmt: skip
-    """One real MD run in a scratch dir. Returns dict: h5.<mol>, xyz.<mol>, stdout, final state."""
-    params = copy.deepcopy(params)
+           pad_extra=0, hook=None, keep=False, nmol_out=None, copy_params=True):  # fmt: skip
+    """One real MD run in a scratch dir. Returns dict: h5.<mol>, xyz.<mol>, stdout, final state.
+    copy_params=False hands the caller's settings dictionary itself to the package (history checks)."""
+    if copy_params:
+        params = copy.deepcopy(params)
     own = workdir is None
     wd = workdir or scratch_dir("vpmd")
     cwd = os.getcwd()
